@@ -14,10 +14,23 @@ CONSTANTS MaxD,        \* behaviour length
           Shapes2,     \* secondary shapes (hints, details, second arguments)
           NilOps,      \* TRUE: also apply wrappers to empty slots
           MaxNodes,    \* bound on the size of a slot's tree
-          EmitAll      \* TRUE: print behaviours
+          EmitAll,     \* TRUE: print behaviours
+          Fresh        \* TRUE: every string argument gets its own words (taint families)
 
-VARIABLE hist
-vars == <<slots, net, reg, hist>>
+VARIABLES hist,        \* the steps taken so far
+          nw,          \* number of words allocated (Fresh)
+          fin          \* the behaviour is complete (it is printed exactly once)
+vars == <<slots, net, reg, taint, hist, nw, fin>>
+
+\* Shapes are templates: placeholders "$1".."$4" are instantiated with fresh
+\* words when Fresh, so that every input string is searchable in the outputs.
+WordK(k) == "w" \o ToString(IF Fresh THEN nw + k ELSE k)
+PW(k) == IF Fresh THEN WordK(4 + k) ELSE WordK(k)          \* words of the fixed pools
+Ph == [k \in 1..4 |-> "$" \o ToString(k)]
+Inst(t) == [i \in 1..Len(t) |->
+              IF \E k \in 1..4 : t[i] = Ph[k] THEN WordK(CHOOSE k \in 1..4 : t[i] = Ph[k]) ELSE t[i]]
+SH == {Inst(t) : t \in Shapes}
+SH2 == {Inst(t) : t \in Shapes2}
 
 E == <<>>
 NonNil(sl) == {i \in 1..NSlots : ~IsNil(sl[i])}
@@ -33,21 +46,21 @@ SentinelPool == {<<"ID_ctxCanceled", "L_ctxCanceled">>, <<"ID_osErrNotExist", "L
 \* errno name and the literal token of its text (EACCES prints the same text as os.ErrPermission)
 ErrnoPool == {<<"ENOENT", "L_errno_ENOENT">>, <<"EACCES", "L_osErrPermission">>,
               <<"EEXIST", "L_errno_EEXIST">>, <<"EINTR", "L_errno_EINTR">>}
-KeyPool == {<< <<"w1">> >>, << <<"w2">>, <<"w1">> >>}
-LinkPool == {<< <<"w1">>, <<"w2">> >>, << <<>>, <<"w1">> >>, << <<"w2">>, <<>> >>, << <<>>, <<>> >>}
-TagPool == {<< <<"w1">>, <<"w2">> >>, << <<"w2">>, <<"w1">>, <<"w1">>, <<"w3">> >>}
+KeyPool == {<< <<PW(1)>> >>, << <<PW(2)>>, <<PW(1)>> >>}
+LinkPool == {<< <<PW(1)>>, <<PW(2)>> >>, << <<>>, <<PW(1)>> >>, << <<PW(2)>>, <<>> >>, << <<>>, <<>> >>}
+TagPool == {<< <<PW(1)>>, <<PW(2)>> >>, << <<PW(2)>>, <<PW(1)>>, <<PW(1)>>, <<PW(3)>> >>}
 CodePool == {<< <<"n404">> >>, << <<"n5">> >>}
 ULeafKinds == {"uPtrLeaf", "uValLeaf", "uRegLeaf", "uMaybe"}
 UWrapKinds == {"uWrapU", "uWrapC", "uWrapUC", "uWrapFull", "uAnnotWrap", "uMaybe"}
 
 PartsPool(sl) ==
-  {<<Part("lit", s, 0)>> : s \in Shapes}
-  \cup {<<Part("lit", s, 0), Part("lit", <<SP>>, 0), Part("arg", t, 0)>> : s \in Shapes, t \in Shapes2}
-  \cup {<<Part("safe", t, 0), Part("lit", <<SEP>>, 0), Part("arg", s, 0)>> : s \in Shapes, t \in Shapes2}
-  \cup {<<Part("lit", s, 0), Part("lit", <<SP>>, 0), Part("err", E, r)>> : s \in Shapes2, r \in NonNil(sl)}
+  {<<Part("lit", s, 0)>> : s \in SH}
+  \cup {<<Part("lit", s, 0), Part("lit", <<SP>>, 0), Part("arg", t, 0)>> : s \in SH, t \in SH2}
+  \cup {<<Part("safe", t, 0), Part("lit", <<SEP>>, 0), Part("arg", s, 0)>> : s \in SH, t \in SH2}
+  \cup {<<Part("lit", s, 0), Part("lit", <<SP>>, 0), Part("err", E, r)>> : s \in SH2, r \in NonNil(sl)}
 WPartsPool(sl) ==
-  {<<Part("lit", s, 0), Part("lit", <<SEP>>, 0), Part("w", E, r)>> : s \in Shapes2, r \in NonNil(sl)}
-  \cup {<<Part("w", E, r), Part("lit", <<SP>>, 0), Part("lit", s, 0)>> : s \in Shapes2, r \in NonNil(sl)}
+  {<<Part("lit", s, 0), Part("lit", <<SEP>>, 0), Part("w", E, r)>> : s \in SH2, r \in NonNil(sl)}
+  \cup {<<Part("w", E, r), Part("lit", <<SP>>, 0), Part("lit", s, 0)>> : s \in SH2, r \in NonNil(sl)}
 
 FamsIn(v) == {Fam(AllNodes(v)[i], <<>>) : i \in 1..Len(AllNodes(v))} \cap DecodableFam
 \* every proper subset of the decodable families occurring in the value
@@ -66,35 +79,37 @@ Take(st) ==
   /\ Do(st)
   /\ NodeCount(slots'[st.dst]) <= MaxNodes
   /\ hist' = Append(hist, st)
+  /\ nw' = IF Fresh THEN nw + 7 ELSE nw
+  /\ fin' = FALSE
 
 On(o) == o \in Ops
 \* The enabled steps, as nested quantifiers (one big set of step records would
 \* be normalised by TLC in every state).  Leaves go to the first free slot,
 \* wrappers are applied in place, binary operations replace the first operand.
 Step1(sl) ==
-  \/ \E o \in StrLeafOps \cap Ops : \E d \in FirstFree(sl) : \E s \in Shapes : Take(Step(o, d, E, s, E, E, 0, E))
+  \/ \E o \in StrLeafOps \cap Ops : \E d \in FirstFree(sl) : \E s \in SH : Take(Step(o, d, E, s, E, E, 0, E))
   \/ On("Sentinel") /\ \E d \in FirstFree(sl) : \E p \in SentinelPool :
         Take(Step("Sentinel", d, E, <<p[2]>>, <<<<p[1]>>>>, E, 0, E))
   \/ On("CtxDeadline") /\ \E d \in FirstFree(sl) : Take(Step("CtxDeadline", d, E, E, E, E, 0, E))
   \/ On("Errno") /\ \E d \in FirstFree(sl) : \E n \in ErrnoPool : Take(Step("Errno", d, E, <<n[2]>>, <<<<n[1]>>>>, E, 0, E))
-  \/ On("Unimplemented") /\ \E d \in FirstFree(sl) : \E s \in Shapes : \E lk \in LinkPool :
+  \/ On("Unimplemented") /\ \E d \in FirstFree(sl) : \E s \in SH : \E lk \in LinkPool :
         Take(Step("Unimplemented", d, E, s, lk, E, 0, E))
   \/ \E o \in {"Newf", "AssertionFailedf"} \cap Ops : \E d \in FirstFree(sl) : \E p \in PartsPool(sl) :
         Take(Step(o, d, E, E, E, p, 0, E))
   \/ On("NewfW") /\ \E d \in FirstFree(sl) : \E p \in WPartsPool(sl) : Take(Step("Newf", d, E, E, E, p, 0, E))
-  \/ On("ULeaf") /\ \E d \in FirstFree(sl) : \E s \in Shapes : \E k \in ULeafKinds :
+  \/ On("ULeaf") /\ \E d \in FirstFree(sl) : \E s \in SH : \E k \in ULeafKinds :
         Take(Step("ULeaf", d, E, s, <<<<k>>>>, E, 0, E))
   \* leaves with their own Is method: value-comparing (says it is any error whose
   \* text is the tag) and identity-comparing (the user sentinel)
   \/ On("UIs") /\ \E d \in FirstFree(sl) :
-        \/ \E s \in Shapes : \E t \in Shapes : Take(Step("ULeaf", d, E, s, <<<<"uIsLeaf">>, t>>, E, 0, E))
-        \/ \E s \in Shapes : Take(Step("ULeaf", d, E, s, <<<<"uIsIdLeaf">>>>, E, 0, E))
+        \/ \E s \in SH : \E t \in SH : Take(Step("ULeaf", d, E, s, <<<<"uIsLeaf">>, t>>, E, 0, E))
+        \/ \E s \in SH : Take(Step("ULeaf", d, E, s, <<<<"uIsIdLeaf">>>>, E, 0, E))
         \/ Take(Step("Sentinel", d, E, <<"w900">>, <<<<"ID_user">>>>, E, 0, E))
   \* wrappers, in place
   \/ \E o \in StrWrapOps \cap Ops :
         \E i \in (IF o \in ForeignWrap THEN NonNil(sl) ELSE Targets(sl)) :
-          \E s \in (IF o \in {"Wrap", "WithMessage"} THEN Shapes \cup {E}
-                    ELSE IF o \in {"PkgWithMessage", "PkgWrap"} THEN Shapes ELSE Shapes2) :
+          \E s \in (IF o \in {"Wrap", "WithMessage"} THEN SH \cup {E}
+                    ELSE IF o \in {"PkgWithMessage", "PkgWrap"} THEN SH ELSE SH2) :
             Take(Step(o, i, <<i>>, s, E, E, 0, E))
   \/ \E o \in BareWrapOps \cap Ops :
         \E i \in (IF o \in ForeignWrap THEN NonNil(sl) ELSE Targets(sl)) : Take(Step(o, i, <<i>>, E, E, E, 0, E))
@@ -106,16 +121,16 @@ Step1(sl) ==
         Take(Step("WithContextTags", i, <<i>>, E, a, E, 0, E))
   \/ \E o \in {"WrapWithHTTPCode", "WrapWithGrpcCode"} \cap Ops : \E i \in Targets(sl) : \E a \in CodePool :
         Take(Step(o, i, <<i>>, E, a, E, 0, E))
-  \/ On("HandledInDomainWithMessage") /\ \E i \in Targets(sl) : \E s \in Shapes : \E t \in Shapes2 :
+  \/ On("HandledInDomainWithMessage") /\ \E i \in Targets(sl) : \E s \in SH : \E t \in SH2 :
         Take(Step("HandledInDomainWithMessage", i, <<i>>, s, <<t>>, E, 0, E))
   \/ On("GoWrap") /\ \E i \in NonNil(sl) :
-        \E pre \in {s \o <<SEP>> : s \in Shapes2} \cup {E} \cup Shapes2 :
-          \E post \in {E} \cup {<<SP>> \o s : s \in Shapes2} : Take(Step("GoWrap", i, <<i>>, pre, <<post>>, E, 0, E))
-  \/ On("OsPathError") /\ \E i \in NonNil(sl) : \E s \in Shapes2 :
-        Take(Step("OsPathError", i, <<i>>, E, <<<<"w1">>, s>>, E, 0, E))
-  \/ On("OsLinkError") /\ \E i \in NonNil(sl) : \E s \in Shapes2 :
-        Take(Step("OsLinkError", i, <<i>>, E, <<<<"w1">>, s, <<"w2">>>>, E, 0, E))
-  \/ On("UWrap") /\ \E i \in NonNil(sl) : \E s \in Shapes2 : \E k \in UWrapKinds :
+        \E pre \in {s \o <<SEP>> : s \in SH2} \cup {E} \cup SH2 :
+          \E post \in {E} \cup {<<SP>> \o s : s \in SH2} : Take(Step("GoWrap", i, <<i>>, pre, <<post>>, E, 0, E))
+  \/ On("OsPathError") /\ \E i \in NonNil(sl) : \E s \in SH2 :
+        Take(Step("OsPathError", i, <<i>>, E, <<<<PW(1)>>, s>>, E, 0, E))
+  \/ On("OsLinkError") /\ \E i \in NonNil(sl) : \E s \in SH2 :
+        Take(Step("OsLinkError", i, <<i>>, E, <<<<PW(1)>>, s, <<PW(2)>>>>, E, 0, E))
+  \/ On("UWrap") /\ \E i \in NonNil(sl) : \E s \in SH2 : \E k \in UWrapKinds :
         Take(Step("UWrap", i, <<i>>, s, <<<<k>>>>, E, 0, E))
   \* binary operations: the result replaces the first operand
   \/ \E o \in BinOps \cap Ops : \E p \in Pairs(sl) : Take(Step(o, p[1], <<p[1], p[2]>>, E, E, E, 0, E))
@@ -131,14 +146,18 @@ Step1(sl) ==
   \/ On("HopU") /\ \E i \in NonNil(sl) : \E k \in KnownSets(sl[i]) :
         Take(Step("Hop", i, <<i>>, E, E, E, 0, SetToSeq(k)))
 
-GInit == Init /\ hist = <<>>
+GInit == Init /\ hist = <<>> /\ nw = 0 /\ fin = FALSE
 
-GNext == Len(hist) < MaxD /\ Step1(slots)
+\* a behaviour of MaxD steps is closed by one Finish step, so that it is printed
+\* once (in simulation mode TLC evaluates invariants on every successor it
+\* generates, not only on the one it follows)
+Finish == Len(hist) = MaxD /\ ~fin /\ fin' = TRUE /\ UNCHANGED <<slots, net, reg, taint, hist, nw>>
+GNext == (Len(hist) < MaxD /\ Step1(slots)) \/ Finish
 
 GSpec == GInit /\ [][GNext]_vars
 
 \* print every maximal behaviour (as one JSON line)
-Emit == (EmitAll /\ Len(hist) = MaxD) => PrintT("BEH " \o ToJson(hist))
+Emit == (EmitAll /\ fin) => PrintT("BEH " \o ToJson(hist))
 
 ---------------------------------------------------------------------------
 (* Design-level invariants, evaluated in every reachable state with the     *)
@@ -201,5 +220,5 @@ InvC04 == \A i \in Live :
 
 DesignInv == InvC01 /\ InvC02 /\ InvC04 /\ InvC07 /\ InvC08 /\ InvC11
 \* the same, on maximal behaviours only (simulation runs)
-DesignInvLeaf == Len(hist) = MaxD => DesignInv
+DesignInvLeaf == fin => DesignInv
 =============================================================================
